@@ -158,3 +158,14 @@ def insert_text_lengths_sql(catalog: str, schema: str, table: str, text_lengths:
         DO UPDATE SET ext_character_maximum_length = excluded.ext_character_maximum_length,
             ext_character_octet_length = excluded.ext_character_octet_length
     """
+
+
+def delete_table_ext_sql(catalog: str, schema: str, table: str | None = None) -> str:
+    """Forget the comment and text lengths recorded for a table, or for every table of a schema."""
+    where = f"ext_table_catalog = '{catalog}' AND ext_table_schema = '{schema}'"
+    if table is not None:
+        where += f" AND ext_table_name = '{table}'"
+    return f"""
+        DELETE FROM {catalog}.information_schema._fs_tables_ext WHERE {where};
+        DELETE FROM {catalog}.information_schema._fs_columns_ext WHERE {where}
+    """
